@@ -44,6 +44,47 @@ def classify_ds_diff(a, b, sow_const):
     return "attrs-values-or-data"
 
 
+def strip_ds(ds, names):
+    out = ds.copy()
+    for k in names:
+        out.attrs.pop(k, None)
+    return out
+
+
+def strip_df(df, names):
+    return df.drop(columns=[c for c in names if c in df.columns])
+
+
+FINDING_DS = "sow-time-constants-not-recorded:dataset"
+FINDING_DF = "sow-time-constants-not-recorded:table"
+
+
+def compare_ds(a, b, sow_const, deferred, what):
+    """crop-side a vs direct b.  A difference confined to attributes named like
+    a constant given at sow time is the recorded finding (deferred to the end
+    of the run so that it masks nothing); anything else is a violation now."""
+    a, b = norm_ds(a), norm_ds(b)
+    if a.identical(b):
+        return
+    a2, b2 = strip_ds(a, sow_const), strip_ds(b, sow_const)
+    if sow_const and a2.identical(b2):
+        deferred.append(Violation(FINDING_DS, explain_ds_diff(a, b)))
+        return
+    raise Violation(what + "/" + classify_ds_diff(a2, b2, {}), explain_ds_diff(a2, b2))
+
+
+def compare_df(a, b, sow_const, deferred, what):
+    bad = rows_equal(a, b)
+    if not bad:
+        return
+    a2, b2 = strip_df(a, sow_const), strip_df(b, sow_const)
+    bad2 = rows_equal(a2, b2)
+    if sow_const and bad2 is None:
+        deferred.append(Violation(FINDING_DF, bad))
+        return
+    raise Violation(what, bad2 or bad)
+
+
 def canon_rows(df):
     cols = sorted(df.columns, key=str)
     rows = [tuple((c, plain(r[c])) for c in cols) for _, r in df.iterrows()]
@@ -94,6 +135,15 @@ def run_c06(ctx):
         m.argnames.append("v")
         m.fn = calllog.make_fn(kind, m.argnames)
         m.sc.farmer = fspec.describe()
+    # a constant given at sow time may repeat the name of a stored runner
+    # constant or resource and then takes precedence for this run (as the
+    # constants= argument of run_combos / harvest_combos / sample_combos does)
+    stored = [k for k in list(fspec.runner_constants) + list(fspec.resources) if k not in ("t", "v")]
+    if stored and t.flag(1, 3, "sow-overrides-stored"):
+        k = t.pick(sorted(stored), "override-name")
+        old = {**fspec.runner_constants, **fspec.resources}[k]
+        m.sow_overrides = {k: [x for x in (3, 6, 9, 12) if x != old][t.choose(3, "override-val")]}
+        ctx.t("sow-time override of stored", m.sow_overrides)
     ctx.t("farmer", fspec.describe())
     twin_name = None
     if fspec.data_name:
@@ -170,14 +220,8 @@ def run_c06(ctx):
                            oracle="load-raised")
             d2, _ = m.call("fresh-reader", lambda: xyzpy.load_ds(twin_name, engine=fspec.engine),
                            oracle="load-raised")
-            a, b = norm_ds(d1), norm_ds(d2)
-            if deferred:
-                b = b.copy()
-                for k_ in sow_const:
-                    b.attrs.pop(k_, None)
-            if not a.identical(b):
-                raise Violation("harvested-file-differs-from-direct/after-refused-merge",
-                                explain_ds_diff(a, b))
+            compare_ds(d1, d2, sow_const, deferred,
+                       "harvested-file-differs-from-direct/after-refused-merge")
             if not G.rexists(m.location):
                 raise Violation("crop-deleted-by-refused-reap", "the conflicting crop is gone")
             ctx.stats["conflicting-second-crop-refused"] += 1
@@ -215,35 +259,12 @@ def run_c06(ctx):
         want, _ = m.call("direct-run", direct, oracle="direct-run-raised")
         # ------------------------------------------------------------- compare
         if role == "sampler" or to_df:
-            bad = rows_equal(got, want)
-            if bad:
-                missing = set(want.columns) - set(got.columns)
-                if missing and missing <= set(sow_const) and not (set(got.columns) - set(want.columns)) \
-                        and rows_equal(got, want.drop(columns=sorted(missing))) is None:
-                    deferred.append(Violation(
-                        "reaped-table-differs-from-direct/columns-missing:sow-time-constants",
-                        "constants given at sow time {} are columns of the direct table "
-                        "but not of the reaped one".format(sorted(missing))))
-                else:
-                    raise Violation("reaped-table-differs-from-direct", bad)
+            compare_df(got, want, sow_const, deferred, "reaped-table-differs-from-direct")
             last = c.farmer._last_df if role == "runner" else c.farmer.last_df
             if last is not got:
                 raise Violation("last-result-not-recorded", "farmer's last_df is not the reaped table")
         else:
-            a, b = norm_ds(got), norm_ds(want)
-            if not a.identical(b) and \
-                    classify_ds_diff(a, b, sow_const) == "attrs-missing:sow-time-constants":
-                # recorded finding: reported at the end of the run, so that it does
-                # not mask anything else; compare modulo those attributes meanwhile
-                deferred.append(Violation(
-                    "reaped-dataset-differs-from-direct/attrs-missing:sow-time-constants",
-                    explain_ds_diff(a, b)))
-                b = b.copy()
-                for k_ in sow_const:
-                    b.attrs.pop(k_, None)
-            if not a.identical(b):
-                raise Violation("reaped-dataset-differs-from-direct/" + classify_ds_diff(a, b, sow_const),
-                                explain_ds_diff(a, b))
+            compare_ds(got, want, sow_const, deferred, "reaped-dataset-differs-from-direct")
             if c.farmer.last_ds is not got:
                 raise Violation("last-result-not-recorded",
                                 "farmer.last_ds is not the reaped dataset")
@@ -252,28 +273,16 @@ def run_c06(ctx):
                            oracle="load-raised")
             d2, _ = m.call("fresh-reader", lambda: xyzpy.load_ds(twin_name, engine=fspec.engine),
                            oracle="load-raised")
-            a, b = norm_ds(d1), norm_ds(d2)
-            if deferred:
-                b = b.copy()
-                for k_ in sow_const:
-                    b.attrs.pop(k_, None)
-            if not a.identical(b):
-                raise Violation("harvested-file-differs-from-direct/" + classify_ds_diff(a, b, sow_const),
-                                explain_ds_diff(a, b))
+            compare_ds(d1, d2, sow_const, deferred, "harvested-file-differs-from-direct")
             full = c.farmer.full_ds
-            if not norm_ds(full).identical(a):
-                raise Violation("full_ds-differs-from-file", explain_ds_diff(norm_ds(full), a))
+            if not norm_ds(full).identical(norm_ds(d1)):
+                raise Violation("full_ds-differs-from-file", explain_ds_diff(norm_ds(full), norm_ds(d1)))
         if role == "sampler":
             d1, _ = m.call("fresh-reader", lambda: xyzpy.load_df(fspec.data_name, engine=fspec.engine),
                            oracle="load-raised")
             d2, _ = m.call("fresh-reader", lambda: xyzpy.load_df(twin_name, engine=fspec.engine),
                            oracle="load-raised")
-            bad = rows_equal(d1, d2)
-            if bad:
-                missing = set(d2.columns) - set(d1.columns)
-                if not (deferred and missing and missing <= set(sow_const)
-                        and rows_equal(d1, d2.drop(columns=sorted(missing))) is None):
-                    raise Violation("sample-file-differs-from-direct", bad)
+            compare_df(d1, d2, sow_const, deferred, "sample-file-differs-from-direct")
         if G.rexists(m.location):
             raise Violation("crop-left-after-reap", "farmer crop not cleaned up after a full reap")
     ctx.nontrivial = m.B >= 1
